@@ -25,7 +25,7 @@ ASSUMPTIONS = [
     "a hang is a proven repetition of the size-loop state or a 20 s watchdog (typical case: < 5 ms)",
     "crash buckets are keyed by (exception type, innermost repository frame)",
 ]
-HEALTH = {"outcome:DIAG": 0.15, "outcome:OK": 0.15, "class:include": 300, "class:cli": 150}
+HEALTH = {"outcome:DIAG": 0.06, "outcome:OK": 0.06, "class:include": 120, "class:cli": 60}
 FUZZ = {"target": "fuzz/fuzz_asm.py", "seconds": {"quick": 0, "thorough": 180}}
 EXHAUSTIVE = {"quick": ["label,PCR sweep: 7 mnemonics x plain/indirect x k x both directions x distance 0..140",
                         "INCLUDE graph catalogue (missing, self, 2-cycle, 3-cycle, diamond, nested) at API and CLI level"],
